@@ -473,6 +473,9 @@ func writeReplay(e *Engine, o *Obligation, file, workDir, repo, verif string) st
 	suffix := "no-failing-input-found"
 	if o.inst != nil {
 		fmt.Fprintf(&sb, "goal: %s\n", o.inst.Goal.S)
+		if vals := o.run.goalValues(o.inst, workDir, 10000); vals != "" {
+			fmt.Fprintf(&sb, "\n--- values of the goal's terms in a counter-model (%s\n", vals)
+		}
 		m := o.run.model(o.inst, workDir, 10000)
 		if m != "" {
 			fmt.Fprintf(&sb, "\n--- solver model (%s)\n", firstLine(m))
